@@ -11,13 +11,13 @@ from vf import frames
 
 NUM = ["x", "z", "center(x)", "scale(z)", "standardize(x)", "bs(x, df=4)", "bs(z, df=5, degree=2, intercept=True)",
        "poly(x, 3)", "poly(z, 2, raw=True)", "np.log(p)", "I(x + z)", "{x * 2}", "scale(np.log(p))", "center(scale(z))",
-       "I(center(x) ** 2)", "ustat(z)", "np.abs(z)", "scale(x)"]
+       "I(center(x) ** 2)", "ustat(z)", "np.abs(z)", "scale(x)", "I(scale(x) + z)", "np.add(center(z), x)"]
 NUM_POINTWISE = ["x", "z", "np.log(p)", "I(x + z)", "{x * 2}", "np.abs(z)", "I(x ** 2)"]
-CAT = ["f", "g", "h", "u", "C(k)", "C(k, levels=lv)", "C(h)", "T(g, 'g1')", "S(g)", "S(f, 'a')", "C(g, Treatment('g3'))", "C(u, Sum)",
+CAT = ["f", "g", "h", "u", "v", "C(k)", "C(k, levels=lv)", "C(h)", "T(g, 'g1')", "S(g)", "S(f, 'a')", "C(g, Treatment('g3'))", "C(u, Sum)",
        "T(h)", "C(f, Sum('b'))"]
 CAT_PLAIN = ["f", "g", "h", "u", "C(k)"]
-GRP = ["g", "f", "h", "C(k)", "g:f", "u", "u:h"]
-COLS = ("x", "z", "p", "f", "g", "h", "u", "k", "y", "s", "n")
+GRP = ["g", "f", "h", "C(k)", "g:f", "u", "u:h", "v"]
+COLS = ("x", "z", "p", "f", "g", "h", "u", "k", "y", "s", "n", "v")
 _NAME = re.compile(r"\b(" + "|".join(COLS) + r")\b")
 
 
@@ -60,7 +60,7 @@ def namespace_for(frame):
 
 
 def frame_strategy(min_rows=8, max_rows=36, num_styles=("general", "general", "offset"), **kw):
-    return frames.random_frame(cat_vars=("f", "g", "h", "u"), num_vars=("x", "z"), int_vars=("k",), pos_vars=("p",),
+    return frames.random_frame(cat_vars=("f", "g", "h", "u"), num_vars=("x", "z"), int_vars=("k",), pos_vars=("p",), intcat_vars=("v",),
                                min_rows=min_rows, max_rows=max_rows, max_levels=4, num_styles=num_styles, **kw)
 
 
@@ -92,13 +92,15 @@ def family(draw, pool, max_terms=3, max_atoms=3):
 
 
 @st.composite
-def design(draw, num_pool=tuple(NUM), cat_pool=tuple(CAT), grp_pool=tuple(GRP), max_terms=3, max_groups=2, response="y"):
+def design(draw, num_pool=tuple(NUM), cat_pool=tuple(CAT), grp_pool=tuple(GRP), max_terms=3, max_groups=3, response="y"):
     """{"response", "intercept", "terms": [[atoms]], "groups": [{"lead","effects","factor"}]} + formula text"""
     pool = list(num_pool) + list(cat_pool)
     d = {"response": response, "intercept": draw(st.sampled_from(["implicit", "implicit", "0+", "-1", "1+"])),
          "terms": draw(family(pool, max_terms)), "groups": []}
-    for _ in range(draw(st.integers(0, max_groups))):
+    for gi in range(draw(st.integers(0, max_groups))):
         factor = draw(st.sampled_from(list(grp_pool)))
+        if gi == 2 and d["groups"] and draw(st.booleans()):
+            factor = d["groups"][0]["factor"]
         fb = bases(factor)
         epool = [a for a in pool if not (bases(a) & fb)]
         lead = draw(st.sampled_from([None, None, "0", "1"]))
@@ -111,8 +113,15 @@ def design(draw, num_pool=tuple(NUM), cat_pool=tuple(CAT), grp_pool=tuple(GRP), 
             lead = draw(st.sampled_from(["0", None, "1"]))
         else:
             effects = draw(family(epool, 2, 2))
-        if any(g["factor"] == factor for g in d["groups"]):
-            continue
+        same = [g for g in d["groups"] if g["factor"] == factor]
+        if same:
+            # a second item on the same grouping factor (its terms are then interleaved with another factor's):
+            # only with effects the factor does not have yet, so that no term is written twice
+            have = {frozenset().union(*[frozenset(bases(a)) for a in t]) for g in same for t in g["effects"]}
+            effects = [t for t in effects if frozenset().union(*[frozenset(bases(a)) for a in t]) not in have]
+            if not effects or len(d["groups"]) < 2:
+                continue
+            lead = "0"
         d["groups"].append({"lead": lead, "effects": effects, "factor": factor})
     d["formula"] = render(d)
     return d
